@@ -482,7 +482,7 @@ Proof.
   intros Ho. apply (sw_run PInv); try assumption.
   - intros; eapply pinv_frame; [eapply pf_finish; eauto|assumption].
   - intros; eapply pinv_frame; [eapply pf_place; eauto|assumption].
-  - intros s0 a o p HI. eapply pinv_frame; [|exact HI]. pf_done. reflexivity.
+  - intros s0 a o p HI _. eapply pinv_frame; [|exact HI]. pf_done. reflexivity.
   - intros; eapply pinv_frame; [eapply pf_mm_tail; eauto|assumption].
   - intros s0 k o g m p r HI _ _ _ _ _. eapply pinv_frame; [|exact HI]. destruct k as [[a pp] i]. unfold fill_book. pf_done. reflexivity.
   - intros s0 k o g st HI _ _ _. eapply pinv_frame; [|exact HI]. pf_done. reflexivity.
